@@ -1,0 +1,62 @@
+//go:build verif
+
+package comp
+
+// Plain-data views of the coherence state, for the verification harness
+// (build tag verif). Nothing here changes behaviour.
+
+// VerifLine is a cache line; Data aliases the cache's slice (read-only use).
+type VerifLine struct {
+	Base int32
+	Data []int8
+}
+
+// VerifCore is the per-core view.
+type VerifCore struct {
+	ID        int
+	L1        []VerifLine
+	ReadBusy  bool    // a read request is in progress in the cache controller
+	WriteBusy bool    // a write request is in progress
+	SnoopBusy bool    // snoop actions are pending
+	RLocked   []int32 // lines this controller holds a read lock on
+	WLocked   []int32 // lines this controller holds a write lock on
+}
+
+// VerifState is one entry of the MSI directory (0 invalid, 1 shared, 2 modified).
+type VerifState struct {
+	Core  int
+	Base  int32
+	State int32
+}
+
+// VerifSem is the lock state of one line.
+type VerifSem struct {
+	Base  int32
+	Read  int
+	Write int
+}
+
+// VerifCommand is an outstanding snoop command.
+type VerifCommand struct {
+	Core    int
+	Base    int32
+	Request int32
+	Done    bool
+}
+
+// VerifSnapshot is the whole coherence state at one cycle.
+type VerifSnapshot struct {
+	LineSize   int
+	Cores      []VerifCore
+	States     []VerifState
+	Sems       []VerifSem
+	Commands   []VerifCommand
+	L3LineSize int
+	L3         []VerifLine
+	L3Locked   []int32
+}
+
+// VerifCounters exposes the lock counters.
+func (s *Sem) VerifCounters() (read, write int) {
+	return s.read, s.write
+}
